@@ -9,6 +9,7 @@ cd $WT
 for d in /verif/seeded/*/; do
   id=$(basename $d)
   [ -n "$1" ] && [[ "$id" != $1* ]] && continue
+  [ "$ONLY_NEW" = 1 ] && [ -f $d/confirm.txt ] && continue
   git checkout -q -- . ; git clean -qfd
   out=$d/confirm.txt
   echo "== $id @ $(git -C /repo log --format=%h -1)" > $out
